@@ -27,6 +27,7 @@ import (
 	"github.com/rulego/streamsql/expr"
 	"github.com/rulego/streamsql/functions"
 	"github.com/rulego/streamsql/types"
+	"github.com/rulego/streamsql/verifhook"
 	"github.com/rulego/streamsql/window"
 )
 
@@ -71,6 +72,7 @@ func (dp *DataProcessor) Process() {
 				return
 			}
 			dp.processItem(data)
+			verifhook.At("proc.item", dp.stream, 0, 0, 0)
 		case <-dp.stream.done:
 			// Received close signal
 			return
@@ -371,6 +373,7 @@ func (dp *DataProcessor) startWindowProcessing() {
 					return
 				}
 				dp.processWindowBatch(batch)
+				verifhook.At("proc.batch", dp.stream, int64(len(batch)), 0, 0)
 			case <-dp.stream.done:
 				// Stream stopped, exit
 				return
